@@ -133,6 +133,9 @@ fn main() {
                 "vol_lo": rng.gen_range(1..20u32), "vol_span": rng.gen_range(1..20u32), "id0": rng.gen_range(0..50u32),
                 "decay": decay, "order_ratio": *pick(&mut rng, &[0.0, 0.5, 1.0, 2.0]),
                 "demand_mult": *pick(&mut rng, &[1.0, 2.0, 4.0]),
+                // the propensity to trade is |demand * tanh(scale * M)| / n and the DIRECTION is the sign of M alone: negative demand or
+                // scale parameters (finite, consistent with the environment) change nothing
+                "demand_sign": *pick(&mut rng, &[1.0, 1.0, 1.0, -1.0]), "scale_sign": *pick(&mut rng, &[1.0, 1.0, 1.0, -1.0]),
                 "scripted": rng.gen::<f64>() < script_rate,
                 "script": (0..rng.gen_range(1..40)).map(|_| *pick(&mut rng, &[0u64, u64::MAX, 1u64 << 63, (1u64 << 40) - 1])).collect::<Vec<u64>>(),
                 "level": 2000 + 10 * rng.gen_range(0..50u32),
@@ -175,8 +178,8 @@ fn main() {
         let noise_params = || NoiseAgentParams { tick_size: tick, p_limit: c["p_limit"].as_f64().unwrap() as f32, p_market: c["p_market"].as_f64().unwrap() as f32,
             p_cancel: c["p_cancel"].as_f64().unwrap() as f32, trade_vol: c["vol"].as_u64().unwrap() as u32, price_dist_mu: c["mu"].as_f64().unwrap(), price_dist_sigma: c["sigma"].as_f64().unwrap() };
         let mom_params = || MomentumParams { tick_size: tick, p_cancel: c["p_cancel"].as_f64().unwrap() as f32, trade_vol: c["vol"].as_u64().unwrap() as u32,
-            decay: c["decay"].as_f64().unwrap(), demand: if saturated { n as f64 * c["demand_mult"].as_f64().unwrap() } else { c["demand_mult"].as_f64().unwrap() * 3.0 },
-            scale: if saturated { 1.0e12 } else { 0.5 }, order_ratio: c["order_ratio"].as_f64().unwrap(), price_dist_mu: c["mu"].as_f64().unwrap(), price_dist_sigma: c["sigma"].as_f64().unwrap() };
+            decay: c["decay"].as_f64().unwrap(), demand: c["demand_sign"].as_f64().unwrap() * if saturated { n as f64 * c["demand_mult"].as_f64().unwrap() } else { c["demand_mult"].as_f64().unwrap() * 3.0 },
+            scale: c["scale_sign"].as_f64().unwrap() * if saturated { 1.0e12 } else { 0.5 }, order_ratio: c["order_ratio"].as_f64().unwrap(), price_dist_mu: c["mu"].as_f64().unwrap(), price_dist_sigma: c["sigma"].as_f64().unwrap() };
         let tick_lo = c["tick_lo"].as_u64().unwrap() as u32;
         let tick_hi = tick_lo + c["tick_span"].as_u64().unwrap() as u32;
         let vol_lo = c["vol_lo"].as_u64().unwrap() as u32;
